@@ -27,14 +27,14 @@ const (
 )
 
 type opRec struct {
-	kind       int
-	path       []byte
-	value      []byte // inserted value
-	call, ret  int
-	err        error
-	got        []byte        // lookup result
-	pairs      []mptlib.Pair // iterate result
-	nchanges   int
+	kind      int
+	path      []byte
+	value     []byte // inserted value
+	call, ret int
+	err       error
+	got       []byte        // lookup result
+	pairs     []mptlib.Pair // iterate result
+	nchanges  int
 }
 
 var pathPool = []string{"00", "0a", "a0", "", "0a0a"}
@@ -227,11 +227,23 @@ func H_Missing() {
 	t := mptlib.NewTrie(db, version, root)
 	live := ref.Live()
 	results := make([]error, 2)
+	kinds := make([]int, 2)
 	for i := 0; i < 2; i++ {
 		i := i
 		p := []byte(live[vp.Choose("path", len(live))])
+		// goroutine 0 looks up or overwrites a path under an absent node, goroutine 1 looks up or
+		// reads the list of missing keys
+		kinds[i] = vp.Choose("mkind", vp.Param("mkinds", 2))
 		vp.Go(func() {
-			_, results[i] = t.GetNodeValueRaw(util.Path(p))
+			switch {
+			case kinds[i] == 0:
+				_, results[i] = t.GetNodeValueRaw(util.Path(p))
+			case i == 0:
+				_, results[i] = t.Insert(util.Path(mptlib.Cp(p)), mptlib.Val([]byte{0x42}))
+			default:
+				_ = t.GetMissingNodeKeys()
+				results[i] = util.ErrNodeNotFound
+			}
 		})
 	}
 	if vp.NoPanic("C16.nopanic", func() { vp.Wait() }) {
